@@ -88,6 +88,9 @@ class StrengthModel:
             np.savez(filename, ssStrength=self.solidStrength, rss = self.rss, ls = self.ls)
 
     def load(self, filename):
+        #save (np.savez) adds the extension to the file name if it is missing
+        if not filename.endswith('.npz'):
+            filename += '.npz'
         data = np.load(filename)
         self.solidStrength = data['ssStrength']
         self.rss = data['rss']
